@@ -148,6 +148,19 @@ theorem handleDropped_step (t : Timer) (a : Act) (ran : Bool) (h : handleDropped
       · rw [h6]; simp
       · rw [h6]; exact hr.2
 
+theorem handleDropped_trace (id : Nat) (acts : List (Act × Bool)) : ∀ u : Timer, handleDropped u → u.id = id →
+    ∀ x ∈ trace u acts, (∀ y ∈ x.2.2.effects, y ≠ .clear id) ∧ Ev.cleared ∉ x.2.2.events := by
+  induction acts with
+  | nil => intro u _ _ x hx; simp [trace] at hx
+  | cons y rest ih =>
+    intro u hu hid x hx
+    obtain ⟨a, ran⟩ := y
+    have hs := handleDropped_step u a ran hu
+    simp only [trace, List.mem_cons] at hx
+    rcases hx with hx | hx
+    · rw [hx, ← hid]; exact hs.2
+    · exact ih _ hs.1 (by rw [step_id, hid]) x hx
+
 /-- an outcome has been reported -/
 def reported (t : Timer) : Prop := t.ctl = .completed ∨ t.ctl = .cleared
 
